@@ -34,9 +34,11 @@ def run(res, only=None):
                 "(exact where adj/det is representable, inverse*det = adj within 2e-5 / 1e-12 otherwise). non-trivial = more than one non-zero entry.  "
                 "Code -> spec: A*B, A*v, determinant, transform_point/vector of every matrix and affine type on random real entries (random "
                 "significands, exponents within 2^+-12) recorded per build; TLC evaluates the defining polynomial exactly (Leibniz determinant, "
-                "row-by-column products) and accepts iff |got - exact| <= K * u * sum|monomials| (K = 6..24 by operation, u = 2^-24 / 2^-53).")
+                "row-by-column products) and accepts iff |got - exact| <= K * u * sum|monomials| (K = 6..24 by operation, u = 2^-24 / 2^-53); "
+                "inverse(M) on the same random matrices and on nearly singular ones: |det| |(M X - I)_ij| <= 64 u sum_k |M_ik| (P_kj + Perm |X_kj|) "
+                "and the mirrored bound (P, Perm: magnitude sums of the cofactor / determinant monomials).")
     res.assumptions = ["on small-integer entries every intermediate of every backend is exactly representable, so comparison is exact",
-                       "the inverse's conditioning bound eps*kappa for general real matrices is not decided (DESIGN section 6)"]
+                       "the inverse is judged through its residuals against a polynomial condition number, not against adj/det entry by entry"]
 
 
 def replay(res, path, only=None):
